@@ -301,3 +301,25 @@ def translate_thresholds(repo):
 
 if __name__ == "__main__" and len(__import__('sys').argv) > 2:
     print(translate_thresholds(__import__('sys').argv[1]))
+
+
+# ------------------------------------------------------------------ swap
+def translate_swap(repo):
+    path = os.path.join(repo, "score_analysis", "scores.py")
+    tree = ast.parse(open(path).read())
+    fn = find_function(tree, "swap", cls="Scores")
+    body = strip_doc(fn.body)
+    if len(body) != 1 or not isinstance(body[0], ast.Return) or not isinstance(body[0].value, ast.Call):
+        raise Reject("swap body shape")
+    call = body[0].value
+    if ast.unparse(call.func) != "Scores" or call.args:
+        raise Reject("swap does not construct a Scores object by keywords")
+    kws = {k.arg: k.value for k in call.keywords}
+    if set(kws) != {"pos", "neg", "nb_easy_pos", "nb_easy_neg", "score_class", "equal_class", "is_sorted"}:
+        raise Reject(f"swap keywords {sorted(kws)}")
+    tr = Tr(env={}, self_fields=SELF_FIELDS)
+    args = [tr.coerce(tr.expr(kws["pos"]), "LQ"), tr.coerce(tr.expr(kws["neg"]), "LQ"),
+            tr.coerce(tr.expr(kws["nb_easy_pos"]), "Z"), tr.coerce(tr.expr(kws["nb_easy_neg"]), "Z"),
+            tr.coerce(tr.expr(kws["score_class"]), "L"), tr.coerce(tr.expr(kws["equal_class"]), "L"),
+            tr.coerce(tr.expr(kws["is_sorted"]), "B")]
+    return HEADER.format(src="Scores.swap") + f"Definition gen_swap (s : scores) : scores :=\n  mk_scores {' '.join(args)}.\n"
